@@ -2,6 +2,7 @@
 runs the symbolic executor and discharges the obligations with z3 (cvc5 as fall-back)."""
 import ast
 import hashlib
+import json
 import importlib
 import os
 import subprocess
@@ -49,6 +50,7 @@ class Session(object):
         self.modules = {}
         self.obj_attrs = {}
         self._spec_cache = {}
+        self._shapes = None
         self.fields = {("$", "alloc"): TBool()}
         self.ghost_fields = set()
         self.class_of = {}
@@ -389,8 +391,10 @@ class Session(object):
                 elem_ok = o["nth"](s, j) == kf(d, j)
             cx.axiom("dict.%s.elems" % name, z3.ForAll([d, j], z3.Implies(z3.And(0 <= j, j < ln),
                      z3.And(z3.Select(dom, kf(d, j)), pos(d, kf(d, j)) == j, elem_ok)), patterns=[o["nth"](s, j)]))
+            cx.axiom("dict.%s.pos-of-keyat" % name, z3.ForAll([d, j], z3.Implies(z3.And(0 <= j, j < ln), z3.And(z3.Select(dom, kf(d, j)), pos(d, kf(d, j)) == j)),
+                                                              patterns=[z3.MultiPattern(kf(d, j), s)]))
             cx.axiom("dict.%s.all" % name, z3.ForAll([d, k], z3.Implies(z3.Select(dom, k),
-                     z3.And(0 <= pos(d, k), pos(d, k) < ln, kf(d, pos(d, k)) == k)), patterns=[z3.Select(dom, k), f(d)]))
+                     z3.And(0 <= pos(d, k), pos(d, k) < ln, kf(d, pos(d, k)) == k)), patterns=[z3.MultiPattern(z3.Select(dom, k), f(d)), pos(d, k)]))
         return SV(f(recv.e), st_)
 
     # ------------------------------------------------------------------ verification
@@ -400,6 +404,38 @@ class Session(object):
             return None
         seg = ast.get_source_segment(c["module"].src, fdef)
         return {"sha256": hashlib.sha256(seg.encode("utf-8")).hexdigest()[:16], "lines": [fdef.lineno, fdef.end_lineno]}
+
+    @staticmethod
+    def shape_of(fdef):
+        """what a proof script (invariants, hints, ghost updates) is keyed to: the assigned names and the loops, in source order"""
+        names, loops = set(), []
+
+        def walk(n):
+            for ch in ast.iter_child_nodes(n):
+                if isinstance(ch, ast.Name) and isinstance(ch.ctx, ast.Store):
+                    names.add(ch.id)
+                elif isinstance(ch, ast.arg):
+                    names.add(ch.arg)
+                elif isinstance(ch, (ast.For, ast.While)):
+                    loops.append(type(ch).__name__)
+                walk(ch)
+        walk(fdef)
+        return {"names": sorted(names), "loops": loops}
+
+    def shape_drift(self, key, fdef):
+        """difference between the function's shape and the shape its contract was written against (contracts/shapes.json), or None"""
+        if self._shapes is None:
+            p = os.path.join(os.path.dirname(os.path.dirname(os.path.abspath(__file__))), "contracts", "shapes.json")
+            self._shapes = json.load(open(p)) if os.path.exists(p) else {}
+        rec = self._shapes.get(key)
+        if rec is None:
+            return None
+        cur = self.shape_of(fdef)
+        if cur == rec:
+            return None
+        plus = sorted(set(cur["names"]) - set(rec["names"]))
+        minus = sorted(set(rec["names"]) - set(cur["names"]))
+        return "names +%s -%s; loops %s (contract written for %s)" % (plus, minus, cur["loops"], rec["loops"])
 
     def verify_function(self, key, budget_ms=10000, rlimit=None):
         """returns dict(name, status, obligations=[...]) ; status in proved/failed/undecided/outside/attach-error"""
@@ -455,6 +491,20 @@ class Session(object):
             res["obligations"].append({"name": o.name, "kind": o.kind, "status": o.status, "backend": o.backend,
                                        "time_s": round(o.time, 4), "where": o.where, "clause": o.text, "detail": o.detail})
         res["status"] = "proved" if allok else "failed"
+        lost = [n for n in res["notes"] if n.startswith("hint pattern matches no statement")]
+        drift = None if allok else self.shape_drift(key, c["fdef"])
+        if drift:
+            # invariants, measures and hints name this function's locals and loops; with other locals / loops the recorded proof
+            # script is not a proof attempt for THIS code, so its failure says nothing about the property (the bounded check decides)
+            res["status"] = "attach-error"
+            res["notes"].insert(0, "contract does not attach: the function's assigned names / loops differ from the ones the proof script is "
+                                   "keyed to (%s) and %d obligation(s) are undischarged" % (drift, sum(o["status"] not in ("discharged", "trivial") for o in res["obligations"])))
+        elif not allok and lost:
+            # the proof script is keyed to statements that are no longer there: the undischarged obligations say that the
+            # recorded ARGUMENT no longer fits this code, not that the property fails -> undecided, never a violation
+            res["status"] = "attach-error"
+            res["notes"].insert(0, "contract does not attach: %d proof hint(s) match no statement of the current source and %d obligation(s) "
+                                   "are undischarged without them" % (len(lost), sum(o["status"] not in ("discharged", "trivial") for o in res["obligations"])))
         return res
 
     def check(self, axioms, pc, goal, budget_ms, fallback=True):
